@@ -154,3 +154,26 @@ func vpH_C04_later() {
 	vpSameObs("original (after a later build) vs loaded(file)", vpObserve(seg, probeF, probeT), vpObserve(lf, probeF, probeT))
 	vpReach("C04 later end")
 }
+
+func init() { vpRegister("vpH_C04_widestats", vpH_C04_widestats) }
+
+// C04 for the per-field counters of the fields section: one or two documents whose field
+// length (token count) is symbolic over 62 bits, so the uvarint written by persistFields
+// and read by loadFields takes every width from 1 to 9 bytes; the loaded segment
+// (memory-backed and, natively, file-backed through vpLoadedVariant) reports the same
+// collection statistics as the built one and as the documents imply.
+func vpH_C04_widestats() {
+	n := vpRange("len.wide", 0, 1<<62-2)
+	docs := []*vpDoc{{fields: []*vpField{{name: "f", terms: []*vpTerm{{term: []byte("t"), freq: 1 + int(n)}}}}}}
+	if vpChoice("docs", 2) == 1 {
+		docs = append(docs, &vpDoc{fields: []*vpField{{name: "f", length: 5, terms: []*vpTerm{{term: []byte("u"), freq: 2}}}}})
+	}
+	vpSetLengths(docs) // field length = number of tokens = sum of the frequencies
+	seg := vpBuild(docs, 1025)
+	exp := vpBuildExpect(docs, nil)
+	vpStatsCheck("built (wide length)", seg, exp, false)
+	vpStatsCheck("loaded (wide length)", vpLoad(vpPersist(seg)), exp, false)
+	mb, _ := vpMergeBytes([]*Segment{seg}, []*roaring.Bitmap{nil}, 1025)
+	vpStatsCheck("merged and loaded (wide length)", vpLoad(mb), exp, true)
+	vpReach("C04 widestats end")
+}
